@@ -138,6 +138,10 @@ func (v *visitor) VisitCondition(ctx *gen.ConditionContext) any {
 		} else if parts[0] == "urns" {
 			propType = PropertyTypeURN
 			propKey = parts[1]
+
+			if v.env.RedactionPolicy() == envs.RedactionPolicyURNs && value != "" {
+				v.addError(NewQueryError(ErrRedactedURNs, "cannot query on redacted URNs"))
+			}
 		} else {
 			v.addError(NewQueryError(ErrUnknownPropertyType, "unknown property type '%s'", parts[0]).withExtra("type", parts[0]))
 		}
